@@ -241,8 +241,10 @@ def record_psf(optic, field, wl, N, Gs, rnd, npix=2, full=True, judge_all=False)
     p = G.quiet(FFTPSF, optic, field, wl, N, Gs)
     psf = np.asarray(p.psf, float)
     P = np.asarray(p.pupils[0], complex)
-    if not (np.all(np.isfinite(psf)) and np.all(np.isfinite(P.real)) and np.all(np.isfinite(P.imag))):
-        return None, "non-finite pupil or PSF (a ray of the pupil grid failed)", p
+    # a failed ray of the pupil grid makes the pupil, hence the PSF, non-finite: such a lens is not a
+    # case; a finite pupil with a non-finite PSF is judged (clause finite)
+    if not (np.all(np.isfinite(P.real)) and np.all(np.isfinite(P.imag))):
+        return None, "non-finite pupil (a ray of the pupil grid failed)", p
     rows, cols = psf.shape
     c = Gs // 2
     pix = []
